@@ -8,9 +8,10 @@ CONSTANTS
   Variant = "as_found"
   Broken = "none"
   MaxLoops = 0
-  MaxPrints = 2
+  MaxPrints = 1
   MaxAuth = 0
 VIEW view
+CONSTRAINT Canon
 INVARIANTS TypeOK GaugeExact NoDoubleCount AsnLedger OutcomeSum AsnSumsEpoch QuiescentZero
 PROPERTIES PrintKeepsGauges
 CHECK_DEADLOCK FALSE
